@@ -13,8 +13,9 @@ CONSTANTS
   AllowWindow = FALSE
   StartStates = {"empty", "data", "ownsnap", "data+ownsnap"}
   OtherAtStart = {TRUE, FALSE}
+  MaxForce = 0
   OnlyOnce = TRUE
 SPECIFICATION Spec
 INVARIANTS TypeOK NoLocalLoss PublishedWhenIdle ReadyMeansLoaded ReadyMeansPublished ExitOnlyWhenDone
-PROPERTIES CommittedOnlyAfterStore LSNeverBackwards NoEchoUpload NoUploadBeforeOwnMerged BucketMonotone ReadyStable
+PROPERTIES CommittedOnlyAfterStore LSNeverBackwards NoEchoUpload NoUploadBeforeOwnMerged BucketMonotone ReadyStable ForcedWhenDue
 CHECK_DEADLOCK FALSE
